@@ -336,6 +336,24 @@ class Zone:
                                 changed = True
                             if self._add(a, t, -1):
                                 changed = True
+                if t[0] == "load" and t[2] in _DRAIN_FIELDS:
+                    # reviewed struct invariant of Drain (established by over_range from translate_range_bounds' postcondition,
+                    # kept by Range::next / next_back, which only move iter inside range):
+                    #   range.start <= iter.start <= iter.end <= range.end <= buf_size <= N
+                    for u in self.terms:
+                        if u is t or u[0] != "load" or u[2] not in _DRAIN_FIELDS or u[1] != t[1]:
+                            continue
+                        ra, rb = _DRAIN_FIELDS[t[2]], _DRAIN_FIELDS[u[2]]
+                        if ra < rb or (ra == rb == 1 and False):
+                            # iter.start vs iter.end only for the same memory version
+                            if {t[2], u[2]} == {("iter", "start"), ("iter", "end")} and t[3] != u[3]:
+                                continue
+                            if self._add(t, u, 0):
+                                changed = True
+                    if t[2] == ("buf_size",):
+                        for u in self.terms:
+                            if u[0] == "cparam" and self._add(t, u, 0):
+                                changed = True
                 if t[0] == "pcall" and t[1] == "<[T]>::len" and len(t[2]) == 1:
                     x = norm(t[2][0])
                     if isinstance(x, tuple) and x and x[0] == "field" and isinstance(x[1], tuple) and x[1][:2] in (("call", "CircularBuffer::as_slices"), ("call", "CircularBuffer::as_mut_slices")) and len(x[1]) == 4:
@@ -419,6 +437,9 @@ class Zone:
 
     def is_variant(self, e, v):
         return ("is", e, v) in self.atoms
+
+
+_DRAIN_FIELDS = {("range", "start"): 0, ("iter", "start"): 1, ("iter", "end"): 2, ("range", "end"): 3, ("buf_size",): 4}
 
 
 def _is_call_result(s):
